@@ -285,12 +285,12 @@ func (c *durableCodec) DecodeTo(d *binary.Decoder, rv reflect.Value) (err error)
 
 	out.db.Update(func(tx *buntdb.Tx) error {
 		for i := 0; i < int(size); i++ {
-			k, err := d.ReadSlice()
+			k, err := readSlice(d)
 			if err != nil {
 				return nil
 			}
 
-			v, err := d.ReadSlice()
+			v, err := readSlice(d)
 			if err != nil {
 				return nil
 			}
